@@ -484,8 +484,8 @@ func c17Schedules(rep *report.Report, bound int, thorough bool) {
 			begin     [4]string // what each transaction saw when it began (state key for pruning)
 		}
 		vbound := bound
-		if !thorough && (v.snapshot || v.rootUser || v.snapInTx || v.twoRestores) {
-			vbound = 1 // quick: the four-thread variants at one preemption (enough for the recursive read-lock deadlock)
+		if v.snapshot || v.rootUser || v.snapInTx || v.twoRestores {
+			vbound = bound - 1 // the four-thread variants one preemption below the three-thread one (quick: 1, thorough: 2)
 		}
 		rep.Set("preemption_bound["+v.name+"]", vbound)
 		ex := &vsched.Explorer{Bound: vbound, MaxSteps: 6000, MaxExecs: c17MaxExecs(thorough), ReplayEvery: 25}
@@ -687,7 +687,7 @@ func c17MaxExecs(thorough bool) int {
 		}
 	}
 	if thorough {
-		return 400000
+		return 150000
 	}
 	return 60000
 }
